@@ -159,6 +159,8 @@ type Spec[T any] struct {
 	Signature func(t T, impl, model Sexp) string
 	// Tags feeds the distribution counters.
 	Tags    func(t T, impl Sexp) []string
+	// Key identifies a case for the distinct count (default: the request line).
+	Key     func(t T) string
 	Timeout time.Duration
 }
 
@@ -174,8 +176,16 @@ func (s *Spec[T]) runImpl(t T) Sexp {
 	if to == 0 {
 		to = 10 * time.Second
 	}
-	return guard(to, func() Sexp { return s.Impl(t) })
+	out := guard(to, func() Sexp { return s.Impl(t) })
+	if h := out.Head(); (h == "timeout" || h == "panic") && dbgCount < 3 {
+		dbgCount++
+		cj, _ := json.Marshal(t)
+		fmt.Fprintf(os.Stderr, "harness: implementation %s on case %s\n", out.String(), cj)
+	}
+	return out
 }
+
+var dbgCount int
 
 // RunCases evaluates the given cases on both sides and handles disagreements.
 func RunCases[T any](c *Ctx, s *Spec[T], cases []T) {
@@ -208,10 +218,18 @@ func RunCases[T any](c *Ctx, s *Spec[T], cases []T) {
 				c.Count("impl:" + h)
 			}
 			if s.Nontrivial == nil || s.Nontrivial(t, impls[i]) {
-				c.MarkNontrivial(reqStr)
+				if s.Key != nil {
+					c.MarkNontrivial(s.Key(t))
+				} else {
+					c.MarkNontrivial(reqStr)
+				}
 			}
 			if c.Res.Evaluations%997 == 1 {
-				c.Sample(reqStr + " => " + impls[i].String())
+				if s.Key != nil {
+					c.Sample(s.Key(t) + " => " + impls[i].String())
+				} else {
+					c.Sample(reqStr + " => " + impls[i].String())
+				}
 			}
 			if !s.equal(t, impls[i], models[i]) {
 				c.Res.DisagreementsChecked++
